@@ -7,6 +7,7 @@ import (
 
 	"verif/harness/internal/c01"
 	"verif/harness/internal/c02"
+	"verif/harness/internal/c03"
 	"verif/harness/internal/c05"
 	"verif/harness/internal/c06"
 	"verif/harness/internal/c07"
@@ -24,6 +25,8 @@ func main() {
 	switch os.Args[1] {
 	case "c01":
 		os.Exit(c01.Main(os.Args[2:]))
+	case "c03":
+		os.Exit(c03.Main(os.Args[2:]))
 	case "c08":
 		os.Exit(c08.Main(os.Args[2:]))
 	case "c14":
